@@ -10,7 +10,11 @@ pub struct Fixture {
     pub w: World,
     pub server: Option<Node>,
     pub saddr: SocketAddrV4,
+    /// re-keying fixtures: the scripted peer that reports the server's address once told to
+    vote: Option<std::rc::Rc<std::cell::Cell<bool>>>,
 }
+
+pub const VOTER: SocketAddrV4 = SocketAddrV4::new(Ipv4Addr::new(45, 12, 9, 9), 6881);
 
 pub struct Client {
     pub sock: SockId,
@@ -63,7 +67,53 @@ impl Fixture {
         spec.settings = settings;
         let server = w.spawn(spec).expect("server");
         let saddr = server.addr;
-        Fixture { w, server: Some(server), saddr }
+        Fixture { w, server: Some(server), saddr, vote: None }
+    }
+    /// A server that can be made to take a new id in the middle of a history: its only peer is a scripted
+    /// endpoint that answers its lookups and, once `trigger_rekey` was called, reports the server's (true,
+    /// public) address in them. The server then pings itself, the ping comes back, and - its random id not
+    /// being BEP42-valid for that address - it re-keys both routing tables. Stored data, tokens and the
+    /// configured request filter are not the routing tables' business and must be what they were.
+    pub fn new_rekeying(seed: u64, settings: Option<ServerSettings>) -> Fixture {
+        let w = World::with_cfg(seed, NetCfg { lat_min: MS, lat_max: MS, random_ties: true }, TraceLevel::Off);
+        let voter = w.raw(VOTER);
+        let vote = std::rc::Rc::new(std::cell::Cell::new(false));
+        let v2 = vote.clone();
+        let vid = [0x7e; 20];
+        w.set_responder(Some(Box::new(move |w, sock, d| {
+            if sock != voter {
+                return false;
+            }
+            let Some(q) = Krpc::parse(&d.bytes) else { return true };
+            if q.y != b'q' {
+                return true;
+            }
+            let mut rd = vec![("id", B::bytes(&vid))];
+            if q.target().is_some() {
+                rd.push(("nodes", B::Bytes(vec![])));
+            }
+            let ip = if v2.get() { Some(&d.from) } else { None };
+            w.raw_send(sock, &response(&q.t, B::dict(rd), ip, Some(&VERSION_RS6)).encode(), d.from);
+            true
+        })));
+        let mut spec = NodeSpec::server(SERVER_IP, &[VOTER]);
+        spec.settings = settings;
+        let server = w.spawn(spec).expect("server");
+        let saddr = server.addr;
+        w.run_for(2 * SEC);
+        Fixture { w, server: Some(server), saddr, vote: Some(vote) }
+    }
+    /// Returns true if the server's id changed.
+    pub fn trigger_rekey(&self) -> bool {
+        let (Some(vote), Some(server)) = (&self.vote, &self.server) else { return false };
+        let before = self.w.block_on(server.adht.info(), 3 * SEC).map(|i| *i.id());
+        vote.set(true);
+        let a = server.adht.clone();
+        let t = dht::Id::from([0x3c; 20]);
+        self.w.block_on(async move { drop(a.find_node(t).await) }, 30 * SEC);
+        self.w.run_for(2 * SEC);
+        let after = self.w.block_on(server.adht.info(), 3 * SEC).map(|i| *i.id());
+        before.is_some() && before != after
     }
     pub fn second_server(&self, ip: Ipv4Addr) -> Node {
         self.w.spawn(NodeSpec::server(ip, &[])).expect("server2")
